@@ -114,3 +114,19 @@ func VerifC09NonceCacheStep() {
 		vrt.Assert("C09.cache.unseen-nonce-is-admitted-and-recorded", ok && c.m["fresh"].Equal(newExp))
 	}
 }
+
+// verif:harness props=C09 tier=quick weight=15
+// verif:bounds two CONCURRENT requests carrying the same nonce and signed timestamp (both valid), run as two interpreted threads interleaved at every mutex acquisition; one fixed clock inside the tolerance
+func VerifC09ConcurrentDuplicates() {
+	a := NewHMACAuth([][]byte{[]byte("k0")})
+	now := time.Unix(1700000010, 0)
+	a.Now = func() time.Time { return now }
+	r1, path, body := hSigned("1700000000", "n1")
+	r2, _, _ := hSigned("1700000000", "n1")
+	var err2 error
+	vrt.Go(func() { err2 = a.Verify(r2, path, body) })
+	err1 := a.Verify(r1, path, body)
+	vrt.Join()
+	vrt.Assert("C09.concurrent.duplicates-accepted-at-most-once", !(err1 == nil && err2 == nil))
+	vrt.Assert("C09.concurrent.one-of-them-is-accepted", err1 == nil || err2 == nil)
+}
